@@ -38,7 +38,7 @@ def effdim(cov):
             f"Lowest eigenvalue {lowest_eigval} is "
             f"above numerical threshold."
         )
-    eigval[eigval < 0.0] = 0.0
+    eigval = eigval[eigval > 0.0]  # 0 * log(0) = 0: vanishing directions do not contribute
     eigval /= sum(eigval)
     eigval *= np.log(eigval)
 
